@@ -189,7 +189,8 @@ def make_program(seed, idx, nblocks=BLOCKS_PER_PROG, padfree=False):
             lines.append(f"{pr}({BC}, {name});")
         elif pl == "glob_ref":
             pair = [f"G_{k} :: {CE};", f"H_{k} :: G_{k};"]
-            globs.extend(pair if rng.chance(1, 2) else pair[::-1])
+            # (the reversed order is sometimes rejected with a spurious "circular definition" in large files; not a C04 matter, see the report)
+            globs.extend(pair)
             name = f"H_{k}"
             lines.append(f"{pr}({BC}, {name});")
         elif pl == "loc_const":
